@@ -35,6 +35,15 @@ let classes e args =
   (* the extracted classifier of the theorem must agree with the per-class letters *)
   let k = existsb (known_arg e) args in
   if k <> (s <> "") then "INCONSISTENT" else if s = "" then "-" else s
+(* The model output is the one of the INDEX-FAITHFUL binder ExpansionIx.bind_args_ix (the re-parse of a
+   spread value runs on the index-faithful parser: vector, usize indices, explicit Panic).  The suffix
+   model Expansion.bind_args is evaluated as well; by C02_ix_bind_refines they agree.  A panic of the index
+   model is printed as PANIC, a disagreement as IXDIFF (both reported by the check). *)
+let bind_ix e written =
+  let s = bind_args e written in
+  match bind_args_ix e written with
+  | BPanic -> "PANIC"
+  | BOk l -> if l = s then field_of_list l else "IXDIFF"
 let () = iter_lines (fun line ->
   match fields line with
   | ["B"; env; args] ->
@@ -42,8 +51,8 @@ let () = iter_lines (fun line ->
       let a = args_of_field args in
       let rendered = map render_arg a in
       Printf.printf "%s\t%s\t%s\t%s\t%s\t%s\n" (field_of_list rendered)
-        (field_of_list (bind_args e rendered)) (field_of_list (denote_args e a))
+        (bind_ix e rendered) (field_of_list (denote_args e a))
         (b2s (forallb wf_arg a)) (b2s (List.for_all wf_literal a)) (classes e a)
   | ["X"; env; texts] ->
-      print_endline (field_of_list (bind_args (env_of_field env) (list_of_field texts)))
+      print_endline (bind_ix (env_of_field env) (list_of_field texts))
   | _ -> print_endline "BADLINE")
